@@ -1,7 +1,8 @@
 #!/venv/bin/python
 """Confirm a seeded change myself, in a scratch worktree (never in /repo):
   demo passes on the unchanged tree, fails with the patch, and the pinned suite still passes.
-usage: verify_seed.py <dir with patch.diff and demo.py> [--no-suite]
+usage: verify_seed.py <dir with patch.diff and demo.py> [--no-suite] [--base <commit>]
+(--base: the /repo commit the change was written against, when a later fix: commit removed its precondition)
 prints a JSON summary."""
 import json, os, subprocess, sys, tempfile, shutil, xml.etree.ElementTree as ET
 
@@ -12,11 +13,12 @@ def sh(cmd, cwd=None, env=None, timeout=3600):
 def main():
     d = os.path.abspath(sys.argv[1])
     suite = "--no-suite" not in sys.argv
+    base = sys.argv[sys.argv.index("--base") + 1] if "--base" in sys.argv else "HEAD"
     wt = tempfile.mkdtemp(prefix="wt_verify_", dir="/tmp")
     os.rmdir(wt)
-    out = {"seed": d}
+    out = {"seed": d, "base": base}
     try:
-        rc, o = sh(["git", "-C", "/repo", "worktree", "add", "-q", "--detach", wt, "HEAD"])
+        rc, o = sh(["git", "-C", "/repo", "worktree", "add", "-q", "--detach", wt, base])
         assert rc == 0, o
         env = dict(os.environ, PYTHONPATH=f"{wt}/src")
         demo = os.path.join(d, "demo.py")
